@@ -29,7 +29,7 @@ def run(ctx):
         sc['conc'] = 2 if i % 4 == 1 else 1          # values whose hashes collide
         sc['retnone'] = i % 5 == 2                    # the function legitimately returns None
         if mode == 'ops' and not lru:                 # entries of the caller's mapping expire at moments of its choosing
-            sc['expire'] = ('never', 'contains', 'getitem')[i % 3]
+            sc['expire'] = ('never', 'contains', 'getitem', 'setitem')[i % 4]
         scs.append(sc)
     if ctx.tier == 'thorough' and len(scs) > 150000:
         keep = [sc for sc in scs if sc['mode'] == 'ops']
